@@ -20,6 +20,8 @@ from .verify import Unit
 VERIF = os.path.dirname(os.path.dirname(os.path.abspath(__file__)))
 REPO = os.environ.get('PYVC_REPO', '/repo')
 REAL_PY = '/venv/bin/python'
+# results about a scratch copy (mutation self-test) never overwrite the evidence about /repo
+OUT = VERIF if os.path.realpath(REPO) == '/repo' else os.path.join(REPO, '.pyvc-out')
 
 
 def _worker(conn, unit, repo, opts):
@@ -209,7 +211,7 @@ def check_property(pid, tier, seed=0, replay_only=None):
             problems.append((3, 'canary %s: counter-model did not replay: %s' % (r['unit'], json.dumps(rp)[:300])))
 
     # violations: replay on the real code
-    os.makedirs(os.path.join(VERIF, 'replays', pid), exist_ok=True)
+    os.makedirs(os.path.join(OUT, 'replays', pid), exist_ok=True)
     reported = set()
     n_viol = 0
     for u, r, vc in violations:
@@ -221,7 +223,7 @@ def check_property(pid, tier, seed=0, replay_only=None):
         rp = real_replay(u, vc['values'], env)
         suffix = vc['oid'].split('/')[-1]
         fname = vc['oid'].replace('/', '__').replace(':', '_').replace('[', '(').replace(']', ')') + '.json'
-        rpath = os.path.join(VERIF, 'replays', pid, fname)
+        rpath = os.path.join(OUT, 'replays', pid, fname)
         record = {'property': pid, 'obligation': vc['oid'], 'unit': u.name, 'contract_module': u.kcls.__module__, 'contract_class': u.kcls.__name__,
                   'params': u.params, 'function': r['target'], 'function_src_sha256': r.get('src_sha256'), 'values': vc['values'],
                   'solver': {'status': 'sat', 'backend': vc['backend'], 'seconds': vc['s'], 'meta': vc.get('meta')},
@@ -298,8 +300,8 @@ def check_property(pid, tier, seed=0, replay_only=None):
         'wall_s': round(time.time() - t0, 3),
         'violations': n_viol,
     }
-    os.makedirs(os.path.join(VERIF, 'evidence'), exist_ok=True)
-    with open(os.path.join(VERIF, 'evidence', '%s.json' % pid), 'w') as f:
+    os.makedirs(os.path.join(OUT, 'evidence'), exist_ok=True)
+    with open(os.path.join(OUT, 'evidence', '%s.json' % pid), 'w') as f:
         json.dump(ev, f, indent=1, sort_keys=True)
     print('%s %s: %d obligations (%d path-level VCs), %d discharged, %d known-finding, %d violation(s), %d problem(s); %d units, canaries %d/%d; %.1fs; exit %d' % (
         pid, tier, obligations, total_vcs, discharged, known_n, n_viol, len(problems), len(units), canary_ok, len(canaries), time.time() - t0, exit_code))
